@@ -1,7 +1,7 @@
 (* C04 -- statements only; see DESIGN.md section 6 C04.  Theorems are added as the proofs land;
    the witnesses below are evaluated in the kernel on the whole-parser model. *)
 From Coq Require Import String.
-From MdIt Require Import Prims Tables Tree Render Core Dump Dispatch.
+From MdIt Require Import Prims Tables Mdurl Escape HtmlRe Tree Render Core Dump Dispatch MdurlProofs RenderProofs LinkProofs.
 Local Open Scope string_scope.
 Local Open Scope list_scope.
 Local Open Scope N_scope.
@@ -18,3 +18,45 @@ Example C04_witness_rejected :
   bs "<p>[a](javascript:x) &lt;JAVASCRIPT:y&gt; <a href=""data:image/png;base64,AA"">b</a></p>
 ".
 Proof. vm_compute. reflexivity. Qed.
+
+(* FULL STATEMENT (not proved end to end; decided on every run by the browser-scheme oracle on the
+   implementation's output and by the model/implementation correspondence): no href/src in the
+   output of any parse is read by a browser as a javascript/vbscript/file/data URL.
+
+   PROVED PART: the pipeline every destination goes through at the three call sites
+   (decode -> normalize_link -> validate_link -> attribute escaping -> browser), for every byte string. *)
+
+(* a normalised link consists of printable ASCII only (safe set of normalize_link is a generated-
+   constant side condition: changing it to include a control, space, DEL or non-ASCII breaks this) *)
+Theorem C04_normalized_printable : forall s, bytes_ok s -> forallb printable (normalize_link s) = true.
+Proof. exact normalize_printable. Qed.
+
+(* what the browser reads from the attribute (entities decoded, leading C0/space stripped, tab and
+   line feeds removed) is exactly the normalised link: no entity / whitespace / control trick survives *)
+Theorem C04_browser_sees_normalized : forall s, bytes_ok s ->
+  browser_view (escape_html (normalize_link s)) = normalize_link s.
+Proof. exact browser_sees_normalized. Qed.
+
+(* validate_link on ASCII text = "does not start (any letter case) with vbscript: javascript: file:
+   data:, unless it starts with data:image/(gif|png|jpeg|webp);" -- the regex engine's verdict *)
+Theorem C04_validate_spec : forall u, forallb (fun b => b <? 128) u = true ->
+  validate_link u = negb (bad_scheme u) || good_data u.
+Proof. exact validate_link_spec. Qed.
+
+(* therefore a link that passed the validator is not dangerous when the browser reads it *)
+Theorem C04_pipeline : forall s, bytes_ok s ->
+  validate_link (normalize_link s) = true ->
+  browser_dangerous (escape_html (normalize_link s)) = false.
+Proof. exact validated_link_not_dangerous. Qed.
+
+Example C04_nonvacuous :
+  validate_link (normalize_link (bs "JaVaScRiPt:alert(1)")) = false /\
+  validate_link (normalize_link (bs "data:image/png;base64,AA")) = true /\
+  validate_link (normalize_link (bs " javascript:x")) = true /\
+  browser_view (escape_html (normalize_link (bs " javascript:x"))) = bs "%20javascript:x".
+Proof. vm_compute. repeat split. Qed.
+
+Print Assumptions C04_normalized_printable.
+Print Assumptions C04_browser_sees_normalized.
+Print Assumptions C04_validate_spec.
+Print Assumptions C04_pipeline.
